@@ -1,14 +1,505 @@
+// Stream `faults` (C14) — I/O failures of the directory are reported, contained and recovered from.
+//
+// A fault-injecting Directory sits between the recording Directory of lib.go and the real
+// FileSystemDirectory. The fault plan of a case names a category of directory operation
+// (persist-snap, persist-seg, persist-mseg, load-snap, load-seg, list-snap, list-seg, remove-snap,
+// remove-seg), the how-manieth operation of that category to hit, a placement for Persist (before any
+// byte / after a partial write / after the full write) and how many consecutive operations of the
+// category fail (1 = transient, more = sticky for a while). Everything else is the machinery of the
+// stream `recover`: the records of the run are replayed through the model, the real directory is
+// listed after every record, crash images of the faulted trace are opened in child processes.
+//
+// Observed in addition: the value every Batch call returns (`ackobs` / `nackobs`), every call of
+// index.Config.AsyncError (`asyncerr`), what a fresh Reader of the writer shows (`rdobs`), and that
+// no operation hangs (`hang`).
 package persistlib
 
-import "verif/harness/hlib"
+import (
+	"errors"
+	"fmt"
+	"io"
+	"sort"
+	"strings"
+	"sync"
+	"time"
 
-type faultPlan struct{}
+	"github.com/blugelabs/bluge/index"
+	segment "github.com/blugelabs/bluge_segment_api"
 
-func (p *faultPlan) clear()             {}
-func (p *faultPlan) install(c *caseRun) {}
-func parseFaultPlan(f []string) *faultPlan { return &faultPlan{} }
+	"verif/harness/hlib"
+)
 
-const faultsRule = ""
+var errInjected = errors.New("verif: injected directory fault")
 
-func (h *HR) genFaults(r *hlib.Rand, tier string, scale int, emit func(string)) {}
-func (h *HR) execFaultOp(lt *lifetime, f []string)                          {}
+type faultSpec struct {
+	op    string // category
+	idx   int    // the idx-th operation of the category (1-based) is the first to fail
+	place string // before | partial | after   (Persist only)
+	count int    // consecutive operations of the category that fail
+	hits  int
+}
+
+type faultPlan struct {
+	mu           sync.Mutex
+	specs        []*faultSpec
+	seen         map[string]int
+	c            *caseRun
+	armed        bool // a fault has fired and has not been cleared yet
+	pendingClear bool
+	fired        int
+	snapLists    int      // List(snapshot) calls so far (= opens)
+	lastSnaps    []uint64 // the last listing of snapshot epochs, newest first
+}
+
+const faultsRule = "a generated batch history (as in the stream `recover`, plus clean reopens and reader observations) run on a real index.Writer over a real FileSystemDirectory through a recording Directory with a fault injector underneath: one fault per case in the quick tier (two in the thorough tier) on the k-th operation of a category — Persist of a snapshot / a segment / a merged segment (before any byte, after a partial write, after the full write), Load of a snapshot / a segment, List of snapshots / segments, Remove of a snapshot / a segment — transient or repeated on the next operations of the category. Observed: every Batch return value, every AsyncError call, a fresh Reader's documents after every step, the directory listing after every record, no hang (time-outs), crash images of the faulted trace opened by the real OpenReader/OpenWriter in child processes, and that the acknowledgement following a failure covers everything applied before it. One evaluation = one record or one crash image; a case is non-trivial when its fault fired and distinct by fault plan + event-kind sequence"
+
+func parseFaultPlan(f []string) *faultPlan {
+	p := &faultPlan{seen: map[string]int{}}
+	for _, pre := range []string{"f", "g"} {
+		op := ""
+		for _, w := range f {
+			if strings.HasPrefix(w, pre+"op=") {
+				op = strings.TrimPrefix(w, pre+"op=")
+			}
+		}
+		if op == "" || op == "none" {
+			continue
+		}
+		place := "before"
+		for _, w := range f {
+			if strings.HasPrefix(w, pre+"place=") {
+				place = strings.TrimPrefix(w, pre+"place=")
+			}
+		}
+		p.specs = append(p.specs, &faultSpec{op: op, idx: kvInt(f, pre+"idx", 1), place: place, count: kvInt(f, pre+"count", 1)})
+	}
+	return p
+}
+
+func (p *faultPlan) String() string {
+	var s []string
+	for _, x := range p.specs {
+		s = append(s, fmt.Sprintf("%s#%d:%s*%d", x.op, x.idx, x.place, x.count))
+	}
+	return strings.Join(s, "+")
+}
+
+func (p *faultPlan) install(c *caseRun) {
+	p.c = c
+	c.wrapDir = func(inner index.Directory) index.Directory { return &faultDir{inner: inner, p: p} }
+}
+
+// clear ends the faults that have begun to fire (the script's `fclear`), or every fault (all: the end of a lifetime).
+func (p *faultPlan) clear(all bool) {
+	p.mu.Lock()
+	for _, s := range p.specs {
+		if all || s.hits > 0 {
+			s.hits = s.count
+		}
+	}
+	was := p.armed || p.pendingClear
+	p.armed, p.pendingClear = false, false
+	p.mu.Unlock()
+	if was && p.c != nil {
+		p.c.record("fclear")
+	}
+}
+
+// check counts one operation of a category and says whether (and where) it fails. locked: the caller holds c.mu.
+func (p *faultPlan) check(op string, locked bool) (bool, string) {
+	rec := p.c.record
+	if locked {
+		rec = p.c.recordLocked
+	}
+	p.mu.Lock()
+	if p.pendingClear {
+		p.pendingClear, p.armed = false, false
+		p.mu.Unlock()
+		rec("fclear")
+		p.mu.Lock()
+	}
+	p.seen[op]++
+	n := p.seen[op]
+	for _, s := range p.specs {
+		if s.op == op && n >= s.idx && s.hits < s.count {
+			s.hits++
+			first := !p.armed
+			p.armed = true
+			p.fired++
+			if s.hits >= s.count {
+				p.pendingClear = true
+			}
+			place := s.place
+			p.mu.Unlock()
+			if first {
+				rec(fmt.Sprintf("fstart %s:%s", op, place))
+			}
+			return true, place
+		}
+	}
+	p.mu.Unlock()
+	return false, ""
+}
+
+// newestHit: category load-newest — during the idx-th open that lists snapshots, Load fails for the `count` newest epochs.
+func (p *faultPlan) newestHit(id uint64) bool {
+	p.mu.Lock()
+	for _, s := range p.specs {
+		if s.op != "load-newest" || p.snapLists != s.idx || s.hits >= s.count {
+			continue
+		}
+		for i, e := range p.lastSnaps {
+			if i < s.count && e == id {
+				s.hits++
+				first := !p.armed
+				p.armed = true
+				p.fired++
+				if s.hits >= s.count {
+					p.pendingClear = true
+				}
+				p.mu.Unlock()
+				if first {
+					p.c.record("fstart load-newest:before")
+				}
+				return true
+			}
+		}
+	}
+	p.mu.Unlock()
+	return false
+}
+
+type faultDir struct {
+	inner index.Directory
+	p     *faultPlan
+}
+
+type cutWriterTo struct {
+	b []byte
+	n int
+}
+
+func (w cutWriterTo) WriteTo(out io.Writer, _ chan struct{}) (int64, error) {
+	k, err := out.Write(w.b[:w.n])
+	if err != nil {
+		return int64(k), err
+	}
+	return int64(k), errInjected
+}
+
+func (d *faultDir) Setup(ro bool) error     { return d.inner.Setup(ro) }
+func (d *faultDir) Stats() (uint64, uint64) { return d.inner.Stats() }
+func (d *faultDir) Sync() error             { return d.inner.Sync() }
+func (d *faultDir) Lock() error             { return d.inner.Lock() }
+func (d *faultDir) Unlock() error           { return d.inner.Unlock() }
+
+func (d *faultDir) List(kind string) ([]uint64, error) {
+	op := "list-seg"
+	if kind == index.ItemKindSnapshot {
+		op = "list-snap"
+	}
+	if bad, _ := d.p.check(op, false); bad {
+		return nil, errInjected
+	}
+	l, err := d.inner.List(kind)
+	if kind == index.ItemKindSnapshot && err == nil {
+		d.p.mu.Lock()
+		d.p.snapLists++
+		d.p.lastSnaps = append([]uint64(nil), l...)
+		d.p.mu.Unlock()
+	}
+	return l, err
+}
+
+func (d *faultDir) Load(kind string, id uint64) (*segment.Data, io.Closer, error) {
+	op := "load-seg"
+	if kind == index.ItemKindSnapshot {
+		op = "load-snap"
+	}
+	if kind == index.ItemKindSegment {
+		// while OpenWriter loads the snapshots a failing segment Load would fail ONE of the snapshots naming it: not placed
+		d.p.c.mu.Lock()
+		opening := d.p.c.opening
+		d.p.c.mu.Unlock()
+		if opening {
+			return d.inner.Load(kind, id)
+		}
+	}
+	if kind == index.ItemKindSnapshot && d.p.newestHit(id) {
+		d.p.c.record(fmt.Sprintf("loadfail %d", id))
+		return nil, nil, errInjected
+	}
+	if bad, _ := d.p.check(op, false); bad {
+		if kind == index.ItemKindSnapshot {
+			d.p.c.record(fmt.Sprintf("loadfail %d", id))
+		}
+		return nil, nil, errInjected
+	}
+	return d.inner.Load(kind, id)
+}
+
+func (d *faultDir) Remove(kind string, id uint64) error {
+	op := "remove-seg"
+	if kind == index.ItemKindSnapshot {
+		op = "remove-snap"
+	}
+	// recDir.Remove holds c.mu across the call
+	if bad, _ := d.p.check(op, true); bad {
+		return errInjected
+	}
+	return d.inner.Remove(kind, id)
+}
+
+func (d *faultDir) Persist(kind string, id uint64, w index.WriterTo, closeCh chan struct{}) error {
+	op := "persist-seg"
+	if kind == index.ItemKindSnapshot {
+		op = "persist-snap"
+	} else {
+		d.p.c.mu.Lock()
+		if d.p.c.mergeSeg[id] {
+			op = "persist-mseg"
+		}
+		d.p.c.mu.Unlock()
+	}
+	bad, place := d.p.check(op, false)
+	if !bad {
+		return d.inner.Persist(kind, id, w, closeCh)
+	}
+	b, ok := w.(bytesWriterTo)
+	switch {
+	case place == "before" || !ok:
+		return errInjected
+	case place == "partial":
+		return d.inner.Persist(kind, id, cutWriterTo{b, len(b) / 2}, closeCh)
+	default:
+		return d.inner.Persist(kind, id, cutWriterTo{b, len(b)}, closeCh)
+	}
+}
+
+// ---------------------------------------------------------------- reader observation
+
+// snapshotContent lists the live documents of a writer's reader as "m3:3,u1:7".
+func snapshotContent(r *index.Snapshot) string {
+	type d struct {
+		kind, num int
+		s         string
+	}
+	var ds []d
+	for _, ss := range r.Segments() {
+		x, ok := ss.(interface {
+			FullSize() int64
+			VisitDocument(uint64, segment.StoredFieldVisitor) error
+		})
+		if !ok {
+			return "err:segment-api"
+		}
+		del := ss.Deleted()
+		n := x.FullSize()
+		for i := int64(0); i < n; i++ {
+			if del != nil && del.Contains(uint32(i)) {
+				continue
+			}
+			var id, tok string
+			if err := x.VisitDocument(uint64(i), func(field string, value []byte) bool {
+				switch field {
+				case "_id":
+					id = string(value)
+				case "tok":
+					tok = string(value)
+				}
+				return true
+			}); err != nil {
+				return "err:visit"
+			}
+			k, num, ok := docKey(id)
+			if !ok {
+				ds = append(ds, d{2, 0, "?" + id + ":" + tok})
+				continue
+			}
+			ds = append(ds, d{k, num, id + ":" + tok})
+		}
+	}
+	sort.Slice(ds, func(i, j int) bool {
+		if ds[i].kind != ds[j].kind {
+			return ds[i].kind < ds[j].kind
+		}
+		if ds[i].num != ds[j].num {
+			return ds[i].num < ds[j].num
+		}
+		return ds[i].s < ds[j].s
+	})
+	if len(ds) == 0 {
+		return "ok:-"
+	}
+	s := make([]string, len(ds))
+	for i, x := range ds {
+		s[i] = x.s
+	}
+	return "ok:" + strings.Join(s, ",")
+}
+
+func (c *caseRun) observeReader(tag string) {
+	if c.w == nil {
+		return
+	}
+	res := hlib.Catch(func() string {
+		r, err := c.w.Reader()
+		if err != nil || r == nil {
+			return "err"
+		}
+		defer r.Close()
+		return snapshotContent(r)
+	})
+	c.mu.Lock()
+	c.log = append(c.log, rec{op: "rdobs " + tag, state: res})
+	c.mu.Unlock()
+}
+
+// waitTimeout: did the batches return?
+func waitTimeout(wg *sync.WaitGroup, d time.Duration) bool {
+	done := make(chan struct{})
+	go func() { wg.Wait(); close(done) }()
+	select {
+	case <-done:
+		return true
+	case <-time.After(d):
+		return false
+	}
+}
+
+// ---------------------------------------------------------------- generator, script operations
+
+func (h *HR) genFaults(r *hlib.Rand, tier string, scale int, emit func(string)) {
+	type fk struct {
+		op     string
+		maxIdx int
+		places []string
+	}
+	kinds := []fk{
+		{"persist-snap", 5, []string{"before", "partial", "after"}},
+		{"persist-seg", 4, []string{"before", "partial", "after"}},
+		{"persist-mseg", 2, []string{"before", "partial", "after"}},
+		{"load-seg", 4, []string{"before"}},
+		{"load-snap", 2, []string{"before"}},
+		{"list-snap", 2, []string{"before"}},
+		{"list-seg", 2, []string{"before"}},
+		{"remove-snap", 3, []string{"before"}},
+		{"remove-seg", 2, []string{"before"}},
+	}
+	rounds := 2 * scale
+	if tier == "thorough" {
+		rounds = 14 * scale
+	}
+	tok := 0
+	ci := 0
+	spec := func(pre string, k fk, round int) string {
+		idx := 1 + (round+r.Intn(k.maxIdx))%k.maxIdx
+		count := 1
+		if r.Chance(35) {
+			count = r.Range(2, 4)
+		}
+		return fmt.Sprintf("%sop=%s %sidx=%d %splace=%s %scount=%d", pre, k.op, pre, idx, pre, k.places[(round+r.Intn(3))%len(k.places)], pre, count)
+	}
+	for round := 0; round < rounds; round++ {
+		// deliberate: Load fails on the two newest snapshot files while OpenWriter walks them (retention 3, no merges:
+		// the files of the last batch). Does the writer come back without an acknowledged batch?
+		{
+			emit(fmt.Sprintf("case %d n=3 unsafe=0 merge=-1 jit=0 seed=%d fop=load-newest fidx=2 fplace=before fcount=2", ci, r.Intn(1<<30)))
+			ci++
+			for i := 0; i < 3; i++ {
+				tok++
+				emit("b " + batchSpec{tok: tok}.String())
+				emit("rd")
+			}
+			emit("reopen")
+			emit("rd")
+			tok++
+			emit("b " + batchSpec{tok: tok}.String())
+			emit("rd")
+			emit("end")
+		}
+		for ki, k := range kinds {
+			n := 1 + (ci % 3)
+			unsafe := (ci+round)%3 == 2
+			merge := 2
+			if k.op != "persist-mseg" && r.Chance(30) {
+				merge = []int{0, 3}[r.Intn(2)]
+			}
+			line := fmt.Sprintf("case %d n=%d unsafe=%d merge=%d jit=%d seed=%d %s", ci, n, b2i(unsafe), merge, r.Intn(3), r.Intn(1<<30), spec("f", k, round))
+			if tier == "thorough" && r.Chance(50) {
+				line += " " + spec("g", kinds[(ki+1+r.Intn(len(kinds)-1))%len(kinds)], round+1)
+			}
+			emit(line)
+			ci++
+			var live []int
+			mk := func() string {
+				tok++
+				sp := batchSpec{tok: tok, cb: unsafe || r.Chance(30)}
+				for len(live) > 0 && r.Chance(30) {
+					i := r.Intn(len(live))
+					sp.dels = append(sp.dels, live[i])
+					live = append(live[:i], live[i+1:]...)
+				}
+				seen := map[int]bool{}
+				for r.Chance(35) {
+					x := r.Intn(4)
+					if !seen[x] {
+						seen[x] = true
+						sp.keys = append(sp.keys, x)
+					}
+				}
+				live = append(live, tok)
+				return sp.String()
+			}
+			steps := r.Range(6, 9)
+			if tier == "thorough" {
+				steps = r.Range(8, 16)
+			}
+			needReopen := k.op == "load-snap" || k.op == "list-snap" || k.op == "list-seg"
+			for s := 0; s < steps; s++ {
+				switch {
+				case needReopen && s == steps/2:
+					emit("reopen")
+				case r.Chance(65):
+					emit("b " + mk())
+				case r.Chance(70):
+					var ps []string
+					for i := r.Range(2, 3); i > 0; i-- {
+						ps = append(ps, mk())
+					}
+					emit("par " + strings.Join(ps, " "))
+				case r.Chance(40):
+					emit("reopen")
+				default:
+					emit("wait")
+				}
+				emit("rd")
+			}
+			emit("fclear")
+			emit("b " + mk())
+			emit("rd")
+			if ci%3 == 0 {
+				emit("reopen")
+				emit("b " + mk())
+			}
+			emit("end")
+			if ci%4 == 1 {
+				emit(fmt.Sprintf("fork depth=1 kind=any sel=%d var=%d unsafe=0 merge=2 jit=0 nap=0 seed=%d", r.Intn(1000), r.Intn(1000), r.Intn(1<<30)))
+				emit("b " + mk())
+				emit("end")
+			}
+		}
+	}
+}
+
+func (h *HR) execFaultOp(lt *lifetime, f []string) {
+	c := lt.c
+	switch f[0] {
+	case "rd":
+		c.observeReader("step")
+	case "fclear":
+		if lt.faults != nil {
+			lt.faults.clear(false)
+		}
+	}
+}
